@@ -241,11 +241,14 @@ func (c *Container) Peek(n int) []byte {
 	}
 
 	// Check if the first slice holds enough data.
-	if len(c.compartments[c.offset]) >= n {
+	if c.offset < len(c.compartments) && len(c.compartments[c.offset]) >= n {
 		return c.compartments[c.offset][:n]
 	}
 
 	// Start gathering data.
+	if length := c.Length(); n > length {
+		n = length
+	}
 	slice := make([]byte, n)
 	copySlice := slice
 	n = 0
